@@ -40,6 +40,7 @@ func writerLayout(p *Program, fn *ssa.Function) ([]layoutElem, string, []string)
 	var best []layoutElem
 	bestRes := ""
 	notes := []string{}
+	allSeqs := []string{}
 	p.Simulate(fn, SimConfig{}, func(pr *PathResult) {
 		if pr.Exit != "return" || len(pr.Results) != 2 || !pr.Results[1].IsNil() {
 			return
@@ -162,16 +163,35 @@ func writerLayout(p *Program, fn *ssa.Function) ([]layoutElem, string, []string)
 				out = append(out, layoutElem{"BYTES", f})
 			}
 		}
+		allSeqs = append(allSeqs, fixedSeq(out))
 		if len(out) > len(best) {
 			best = out
 		}
 	})
+	for _, q := range allSeqs {
+		if q != fixedSeq(best) {
+			notes = append(notes, fmt.Sprintf("the record's shape depends on the entry: one successful path writes the fixed-width elements %s, another %s (a reader cannot tell which it is given unless it tests exactly the same condition)", fixedSeq(best), q))
+		}
+	}
 	return best, bestRes, notes
+}
+
+func kindSeq(xs []layoutElem) string {
+	ks := []string{}
+	for _, x := range xs {
+		k := x.Kind
+		if k == "U32LEN" {
+			k = "U32" // the same four bytes; the length of a nil element folds to a constant
+		}
+		ks = append(ks, k)
+	}
+	return "[" + strings.Join(ks, " ") + "]"
 }
 
 func readerLayout(p *Program, fn *ssa.Function) ([]layoutElem, []string) {
 	var best []layoutElem
 	notes := []string{}
+	allSeqs := []string{}
 	p.Simulate(fn, SimConfig{}, func(pr *PathResult) {
 		if pr.Exit != "return" || len(pr.Results) != 1 {
 			return
@@ -270,10 +290,16 @@ func readerLayout(p *Program, fn *ssa.Function) ([]layoutElem, []string) {
 				out = append(out, layoutElem{"BYTES", d})
 			}
 		}
+		allSeqs = append(allSeqs, kindSeq(out))
 		if len(out) > len(best) {
 			best = out
 		}
 	})
+	for _, q := range allSeqs {
+		if q != kindSeq(best) {
+			notes = append(notes, fmt.Sprintf("what the reader consumes depends on what it has read so far: one successful path reads %s, another %s (an element skipped on one of them is taken for the next one)", kindSeq(best), q))
+		}
+	}
 	return best, notes
 }
 
@@ -700,4 +726,19 @@ func handRolledBigEndian(pr *PathResult, res *Term, width int64) bool {
 		}
 	}
 	return true
+}
+
+// fixedSeq: the fixed-width elements only (an empty variable-length element
+// appended onto a slice leaves no trace in the writer's term).
+func fixedSeq(xs []layoutElem) string {
+	ks := []string{}
+	for _, x := range xs {
+		switch x.Kind {
+		case "U32LEN", "U32":
+			ks = append(ks, "U32")
+		case "U64":
+			ks = append(ks, "U64")
+		}
+	}
+	return "[" + strings.Join(ks, " ") + "]"
 }
